@@ -201,3 +201,12 @@ pub fn unhex(s: &str) -> Vec<u8> {
 pub fn unhex_str(s: &str) -> String {
     String::from_utf8(unhex(s)).unwrap()
 }
+
+/// clears the rules of all five families
+pub fn clear_all_rules() {
+    sentinel_core::flow::clear_rules();
+    sentinel_core::isolation::clear_rules();
+    sentinel_core::system::clear_rules();
+    sentinel_core::hotspot::clear_rules();
+    sentinel_core::circuitbreaker::clear_rules();
+}
